@@ -49,10 +49,24 @@ def run_persist_property(prop, module, trusted, tier, seed, replay, gen_cases, k
         for l in c["ann"]:
             hist[l.split(" ")[0]] = hist.get(l.split(" ")[0], 0) + 1
             index_rej += "accept=index" in l
+    faults, fhist = 0, {}
+    for c in stats.get("results", []):
+        for a, l in zip(c["ann"], c["impl"]):
+            if a.startswith("sweep "):
+                _, ff = persist.fields(a)
+                base = ff.get("base", "")
+                for lab, conc, view, out in persist.sweep_items(ff, l):
+                    faults += 1
+                    cls = "skipped" if out == "skipped" else "refused" if out.startswith("err:") else "same" if out == base else "DIFFERENT"
+                    key = ".".join(lab.split(".")[:3]) if not lab.startswith("manifest") else lab
+                    fhist.setdefault(key, {}).setdefault(cls, 0)
+                    fhist[key][cls] += 1
     rep.coverage.update({
         "traces_validated_against_impl": stats["validated"],
         "disagreements_checked": stats["cases"],
-        "evaluations": stats["cases"] if not crashes else crashes,
+        "evaluations": faults if faults else (stats["cases"] if not crashes else crashes),
+        "single_faults_recovered_by_real_code": faults,
+        "fault_outcomes_by_class": fhist,
         "distinct_nontrivial": len(stats["distinct"]),
         "rule": rule,
         "op_histogram": hist,
@@ -94,6 +108,6 @@ def collect_persist(cases, kinds, rep, stats, sig_of):
             findings.append({"kind": "oracle", "engine": "persist", "case": c, "idx": idx, "msg": msg,
                              "sig": sig_of(kind, c),
                              "pred": (lambda cc, kind=kind: any(k == kind for k, _, _ in persist.oracle(cc["raw"], cc["ann"], cc["impl"])))})
-            if not kind.endswith("-partial"):
+            if not kind.endswith("-partial") and not kind.startswith("c13-"):
                 break      # later failures of the same history are knock-on effects
     return findings
